@@ -72,3 +72,6 @@ func fscInv(c *FSContext) bool {
 //@ func (c *FSContext) Close() (err error)
 //@   trusted
 //@   modifies obj(&c.openedFiles)
+
+// VerifOpenedFiles exposes the file table for frame clauses of other packages (ghost).
+func VerifOpenedFiles(c *FSContext) *FileTable { return &c.openedFiles }
